@@ -170,18 +170,23 @@ def run(rep: common.Report, tier: str, seed: int):
     helper_fail = []
     for _ in range(20 if quick else 200):
         p = dict(speed=20, radius=rng.choice([15, 25]), pitch=rng.choice([0.08, 0.127]), int_dist=rng.choice([0.007, 0.01]),
-                 int_length=rng.choice([0.0, 0.5]), samplesize=(rng.choice([25, 50]), 3), cmd_rate_max=200)
+                 int_length=rng.choice([0.0, 0.5]), samplesize=(rng.choice([25, 50]), 3), cmd_rate_max=200,
+                 shrink_correction_factor=rng.choice([1.0, 1.0, 0.9993, 1.0015]))
+        nasu = rng.random() < 0.25
         with pgm.quiet():
-            a, b = coupler(p)
+            a, b = coupler(dict(p), nasu=nasu)
+            pitch = Waveguide(**p).pitch        # the pitch as a waveguide built from these parameters has it (shrink-corrected)
         xa, ya, _ = a.path3d
         xb, yb, _ = b.path3d
         xc = p['samplesize'][0] / 2
         ia, ib = int(np.argmin(np.abs(xa - xc))), int(np.argmin(np.abs(xb - xc)))
-        ok = abs((yb[ib] - ya[ia]) - p['int_dist']) < 1e-5 and abs((yb[0] - ya[0]) - p['pitch']) < 1e-6 and \
-            abs((yb[-1] - ya[-1]) - p['pitch']) < 1e-5 and abs((xa[np.argmin(yb - ya if False else np.abs(ya - ya[ia]))]) - xa[ia]) < 1e9
-        # the interaction segment is centred: the straight part spans symmetrically about samplesize_x / 2
-        flat = [x for x, y in zip(xa, ya) if abs(y - ya[ia]) < 1e-7]
-        ok = ok and abs((min(flat) + max(flat)) / 2 - xc) < 1e-3
+        ok = abs((yb[ib] - ya[ia]) - p['int_dist']) < 1e-5 and abs((yb[0] - ya[0]) - pitch) < 1e-6 and \
+            abs((yb[-1] - ya[-1]) - pitch) < 1e-5
+        # the interaction segment of each arm is centred: its straight part spans symmetrically about samplesize_x / 2
+        for xs, ys, i0 in ((xa, ya, ia), (xb, yb, ib)):
+            flat = [x for x, y in zip(xs, ys) if abs(y - ys[i0]) < 1e-7]
+            ok = ok and abs((min(flat) + max(flat)) / 2 - xc) < 1e-4
+        p = dict(p, nasu=nasu)
         hist['ops']['coupler-helper'] = hist['ops'].get('coupler-helper', 0) + 1
         if not ok:
             helper_fail.append(p)
